@@ -87,6 +87,15 @@ def pointer_chain(body, defs, op):
                 mutable = SLICE_PTR[p]
                 cur = t['args'][0]
                 continue
+            if p in ('core::slice::<impl [T]>::get_unchecked', 'core::slice::<impl [T]>::get_unchecked_mut') and len(t['args']) == 2:
+                # the tail sub-slice `buffer.get_unchecked(offset..)`: the same address as `buffer + offset`
+                rng = trace_value(body, defs, t['args'][1])[-1]
+                if rng[0] == 'rv' and rng[1]['k'] == 'aggregate' and rng[1].get('adt') == 'core::ops::range::RangeFrom':
+                    adds.append(rng[1]['fields'][0])
+                    if mutable is None:
+                        mutable = p.endswith('_mut')
+                    cur = t['args'][0]
+                    continue
             other.append(p)
             root = ('call', p)
             break
@@ -345,7 +354,7 @@ def writes_field(st, adt, name):
     return False
 
 
-STRING_PASSTHROUGH = re.compile(r'^(<alloc::string::String as core::(ops::deref::Deref(Mut)?|clone::Clone|borrow::Borrow(Mut)?<str>|convert::AsRef<str>)>::[a-z_]+|core::clone::Clone::clone|alloc::string::String::(as_str|as_mut_str)|<str as (alloc::borrow::ToOwned|alloc::string::ToString)>::[a-z_]+|alloc::borrow::ToOwned::to_owned|alloc::string::ToString::to_string|<alloc::string::String as core::convert::From<&str>>::from|<&str as core::convert::Into<alloc::string::String>>::into|<alloc::string::String as core::convert::From<alloc::string::String>>::from|alloc::str::<impl str>::to_owned)$')
+STRING_PASSTHROUGH = re.compile(r'^(<alloc::string::String as core::(ops::deref::Deref(Mut)?|clone::Clone|borrow::Borrow(Mut)?<str>|convert::AsRef<str>)>::[a-z_]+|core::clone::Clone::clone|alloc::string::String::(as_str|as_mut_str)|<str as (alloc::borrow::ToOwned|alloc::string::ToString)>::[a-z_]+|alloc::borrow::ToOwned::to_owned|alloc::string::ToString::to_string|<alloc::string::String as core::convert::From<&str>>::from|<&str as core::convert::Into<alloc::string::String>>::into|<alloc::string::String as core::convert::From<alloc::string::String>>::from|alloc::str::<impl str>::to_owned|alloc::str::<impl alloc::borrow::ToOwned for str>::to_owned|alloc::string::String::(into_boxed_str|into_string)|<alloc::string::String as core::str::traits::FromStr>::from_str)$')
 
 
 def string_origin(b, defs, op):
@@ -527,15 +536,34 @@ def truc_rule_flow(ctx, crate):
     entry = {'add_datum': {'type_info': {'call:truc::record::type_resolver::TypeResolver::type_info', 'resolver.type_info'}, 'allow_uninit': {'const:0'}},
              'add_datum_allow_uninit': {'type_info': {'resolver.type_info'}, 'allow_uninit': {'const:1'}},
              'add_datum_override': None, 'add_dynamic_datum': None, 'copy_datum': None}
+    # the derived constructor NativeDatumDetails::new: which parameter feeds which field
+    ctor_order = None
+    nb_ = crate.lookup(NDD + '::new')
+    if nb_ is not None:
+        for _, _, s_ in nb_.statements():
+            if s_['k'] == 'assign' and s_['rv']['k'] == 'aggregate' and s_['rv'].get('adt') == NDD:
+                nd_ = local_defs(nb_)
+                ctor_order = {}
+                for fname, fop in zip(s_['rv']['field_names'], s_['rv']['fields']):
+                    src_ = trace_value(nb_, nd_, fop)[-1]
+                    if src_[0] == 'param':
+                        ctor_order[fname] = src_[1] - 1
+        if ctor_order is not None and (set(ctor_order) != {'offset', 'type_info', 'allow_uninit'} or len(list(nb_.calls())) > 0):
+            ctor_order = None
     for b in crate.bodies:
         defs = None
+        sites = []
         for bb, si, st in b.statements():
             if st['k'] == 'assign' and st['rv']['k'] == 'aggregate' and st['rv'].get('adt') == NDD:
+                sites.append((dict(zip(st['rv']['field_names'], st['rv']['fields'])), fmt_span(st.get('span'))))
+        if ctor_order is not None and b.path.startswith(NB) and b.path[len(NB):] in entry:
+            # an entry point that goes through the constructor: the same obligations on its arguments
+            for bb, t in b.calls():
+                if callee_path(t) == NDD + '::new' and len(t['args']) == 3:
+                    sites.append(({k: t['args'][i] for k, i in ctor_order.items()}, fmt_span(t['span'])))
+        for vals, where in sites:
+            if True:
                 defs = defs or local_defs(b)
-                rv = st['rv']
-                names = rv['field_names']
-                vals = dict(zip(names, rv['fields']))
-                where = fmt_span(st.get('span'))
                 name = b.path[len(NB):] if b.path.startswith(NB) else None
                 derive_new = b.path == NDD + '::new'
                 if derive_new:
@@ -594,7 +622,7 @@ def truc_rule_flow(ctx, crate):
                 if not all(want_au(x) for x in au):
                     ctx.add(['C18', 'C11'], 'H-FLOW', b.key, 'the may-be-uninitialised flag of a new datum flows from %s at %s' % (sorted(au), where), key='%s|allow_uninit' % b.key)
         for bb, t in b.calls():
-            if callee_path(t) == NDD + '::new':
+            if callee_path(t) == NDD + '::new' and not (ctor_order is not None and b.path.startswith(NB) and b.path[len(NB):] in entry and len(t['args']) == 3):
                 ctx.add(['C03', 'C18'], 'W1b', b.key, 'NativeDatumDetails::new is called from non-test code at %s (offset and type information chosen by the caller)' % fmt_span(t['span']), key='%s|new' % b.key)
     ctx.floor(['C03', 'C18'], 'W1b', 5)
     ctx.floor(['C18'], 'H-FLOW', 5)
@@ -1293,6 +1321,10 @@ def truc_rule_builder(ctx, crate):
             if x[0] != 'place':
                 return None
             base = trace_value(b, defs, {'copy': {'l': x[1]['l'], 'p': [], 'ty': None}})[-1]
+            fidx = [e['f'] for e in x[1]['p'] if isinstance(e, dict) and 'f' in e]
+            if base[0] == 'rv' and base[1]['k'] == 'aggregate' and base[1].get('ak') == 'tuple' and fidx and fidx[0] < len(base[1]['fields']):
+                # matched as a component of a tuple: `match (present, pending_index) { (false, Some(index)) => … }`
+                base = trace_value(b, defs, base[1]['fields'][fidx[0]])[-1]
             if base[0] != 'call' or not (callee_path(base[1]) or '').endswith('::position'):
                 return None
             it = trace_value(b, defs, base[1]['args'][0])[-1]
@@ -1325,7 +1357,18 @@ def truc_rule_builder(ctx, crate):
                         if rf and rf[0] == ['data_to_remove'] and arg[0] == 'ref' and arg[2]['l'] == 2:
                             guard = (sb, edge_for(b, sb, si[2]), edge_for(b, sb, not si[2]))   # "contains" true edge / false edge
                 if guard is None:
-                    ctx.add(['C12'], 'B-GUARD-RM', b.key, 'data_to_remove.push is not guarded by data_to_remove.contains(&id)', key='contains')
+                    def sym_already(tm):
+                        if callee_path(tm) == 'core::slice::<impl [T]>::contains' and len(tm['args']) == 2:
+                            rf_ = self_field_of(b, defs, tm['args'][0])
+                            a_ = trace_value(b, defs, tm['args'][1])[-1]
+                            if rf_ and rf_[0] == ['data_to_remove'] and a_[0] == 'ref' and a_[2]['l'] == 2:
+                                return ('already', True)
+                        return None
+                    ways = paths_reaching(b, bb, sym_already)
+                    if ways and all(w.get('already') is False for w in ways):
+                        ctx.inst('B-GUARD-RM', 'data_to_remove.push only when the id is not recorded as removed yet (%d paths)' % len(ways))
+                    else:
+                        ctx.add(['C12'], 'B-GUARD-RM', b.key, 'data_to_remove.push is not guarded by data_to_remove.contains(&id)', key='contains')
                 else:
                     reach = b.reachable(0, unwind=False, removed_edges=[(guard[0], guard[1])])
                     if bb in reach:
@@ -1441,7 +1484,33 @@ def truc_rule_builder(ctx, crate):
                     present_truth = positive != si[2]
                     g2 = (sb, edge_for(b, sb, present_truth))
                 if g2 is None:
-                    ctx.add(['C12'], 'B-GUARD-RM', b.key, 'data_to_remove.push is not guarded by a lookup of the id in the last variant', key='present')
+                    # no single switch to point at: follow every path to the push with the truth values it
+                    # assumed for "the id is in the last variant" (booleans carried through locals, tuples, `!`)
+                    def sym_present(tm):
+                        cp_ = callee_path(tm) or ''
+                        r_ = presence_call(b, defs, tm, lambda bx, dx, o: over_last_variant_data(o))
+                        if r_ is not None:
+                            return ('present', r_)
+                        if cp_ in ('core::option::Option::<T>::map_or', 'core::option::Option::<T>::is_some_and') and len(tm['args']) >= 2:
+                            # last().map_or(false, |variant| <id in variant.data>)
+                            src_ = trace_value(b, defs, tm['args'][0])[-1]
+                            dflt_ok = cp_.endswith('is_some_and') or op_int(tm['args'][1]) == 0
+                            if dflt_ok and src_[0] == 'call' and (callee_path(src_[1]) or '').endswith('::last'):
+                                sfl_ = self_field_of(b, defs, src_[1]['args'][0])
+                                cl_ = trace_value(b, defs, tm['args'][-1])[-1]
+                                if sfl_ and sfl_[0] == ['variants'] and cl_[0] == 'rv' and cl_[1].get('closure'):
+                                    cb_ = crate.lookup(cl_[1]['closure'])
+                                    if cb_ is not None:
+                                        cd_ = local_defs(cb_)
+                                        rr_ = trace_value(cb_, cd_, {'copy': {'l': 0, 'p': [], 'ty': None}})[-1]
+                                        if rr_[0] == 'call' and presence_call(cb_, cd_, rr_[1], variant_data) is True:
+                                            return ('present', True)
+                        return None
+                    ways = paths_reaching(b, bb, sym_present)
+                    if ways and all(w.get('present') is True for w in ways):
+                        ctx.inst('B-GUARD-RM', 'data_to_remove.push only when the id is in the last variant (%d paths)' % len(ways))
+                    else:
+                        ctx.add(['C12'], 'B-GUARD-RM', b.key, 'data_to_remove.push is not guarded by a lookup of the id in the last variant', key='present')
                 else:
                     reach = b.reachable(0, unwind=False, removed_edges=[g2])
                     if bb in reach:
